@@ -23,6 +23,9 @@ static std::atomic<size_t> g_n{0};
 static thread_local int t_id = 0;
 static inline void rec(int kind, long long a = 0, long long b = 0, long long c = 0, long long d = 0)
 {
+#ifdef C15_NO_REC   // ThreadSanitizer build: the recorder's atomic counter would order all operations and hide races
+    (void)kind; (void)a; (void)b; (void)c; (void)d; return;
+#endif
     size_t i = g_n.fetch_add(1, std::memory_order_acq_rel);
     if (i < g_ev.size()) g_ev[i] = Ev{t_id, kind, a, b, c, d};
 }
